@@ -303,6 +303,8 @@ def allowed_destructive(S, f, n, k):
             for l in find_loops(f):
                 if l.get("k") == "rangefor" and l.get("var", {}).get("decl") == vv.get("decl"):
                     elem_obj = l.get("range")
+        if elem_obj is not None and iterator_from_begin(f, elem_obj) is not None:
+            elem_obj = iterator_from_begin(f, elem_obj)       # *it of a front-to-back walk over the list
         if elem_obj is not None:
             lst = container_origin(f, skip_copies(elem_obj))
             lst = deref_local(f, lst)
